@@ -354,6 +354,15 @@ def main():
         parts = [lambda: e2e_default_times("mps" if "MPSBackendImpl" in name else "sv")]
     elif "_get_target_times" in name and "/fp/" in name:
         parts = [lambda: unit(rec)]
+    elif "separation-without-chain-hypothesis" in name:
+        # separation for EVERY requested time: the listed residual inputs (open known finding F20: chains longer
+        # than the tolerance) are run and shown, but only a failure OUTSIDE them is a reproduction
+        def known_residual():
+            for backend in ("sv", "mps"):
+                e2e_close_requests(backend, RESIDUAL, verdict="KNOWN-FINDING-F20-INPUT-FAILS")
+            return 0
+        parts = [known_residual, lambda: unit(rec), e2e_sv, lambda: e2e_close_requests("sv"),
+                 lambda: e2e_close_requests("mps")]
     elif "_get_target_times" in name:
         parts = [lambda: unit(rec), e2e_sv, lambda: e2e_close_requests("sv"), lambda: e2e_close_requests("mps")]
     elif "MPSBackendImpl" in name:
